@@ -53,6 +53,10 @@ type (
 		X Expr
 		T *TypeExpr
 	}
+	ESetComp struct { // setof v T :: P(v)
+		Var  QVar
+		Body Expr
+	}
 )
 
 type QVar struct {
@@ -246,6 +250,14 @@ func (p *parser) parseExpr(minPrec int) Expr {
 	// quantifiers extend as far as possible
 	if p.isID("forall") || p.isID("exists") {
 		return p.parseQuant()
+	}
+	if p.isID("setof") {
+		p.next()
+		name := p.next()
+		ty := p.parseType()
+		p.expect("::")
+		body := p.parseExpr(0)
+		return ESetComp{Var: QVar{name.text, ty}, Body: body}
 	}
 	lhs := p.parseUnary()
 	for {
@@ -597,7 +609,8 @@ type GhostSet struct {
 type IterSpec struct {
 	Over      Expr // set-valued expression over the formals
 	Ascending bool
-	ParamIdx  int // index of the closure parameter
+	ParamIdx  int  // index of the closure parameter
+	Yield     Expr // optional: the value handed to the delegate for element "it" (default: the element itself)
 }
 
 type PureFunc struct {
@@ -997,6 +1010,15 @@ func ParseContractFile(path, pkgPath, text string) (*ContractFile, error) {
 				return nil, fail(l, err)
 			}
 			pn := strings.TrimSpace(r[w+6:])
+			var yield Expr
+			if y := strings.Index(pn, " yielding "); y >= 0 {
+				ye, err := parseExprString(strings.TrimSpace(pn[y+10:]))
+				if err != nil {
+					return nil, fail(l, err)
+				}
+				yield = ye
+				pn = strings.TrimSpace(pn[:y])
+			}
 			idx := -1
 			for k, n := range cur.ParamNames {
 				if n == pn {
@@ -1006,7 +1028,7 @@ func ParseContractFile(path, pkgPath, text string) (*ContractFile, error) {
 			if idx < 0 {
 				return nil, fail(l, fmt.Errorf("iterates: unknown parameter %s", pn))
 			}
-			cur.Iterates = &IterSpec{Over: e, Ascending: asc, ParamIdx: idx}
+			cur.Iterates = &IterSpec{Over: e, Ascending: asc, ParamIdx: idx, Yield: yield}
 		case "monitor":
 			// monitor Type.lockField
 			dot := strings.LastIndex(rest, ".")
